@@ -85,6 +85,47 @@ def unary (outs : List Out) : Unary :=
   | .layer => .layer
   | .panic => .panic
 
+/-! ### the caller's view for an arbitrary response head
+
+`create_response` (client/grpc.rs) hands the HTTP status to `Streaming::new_response`; the
+headers become the `Response`'s metadata.  Headers tonic itself interprets (`grpc-status`,
+`grpc-encoding`) are not part of these cases.  `content-type` and the version are not read.
+
+* `Streaming` (decode.rs, as repaired by 80251617): the DATA of a response whose status is not
+  200 is dropped unread; at the end of the body `infer_grpc_status(trailers, status)`.
+* `client_streaming` (unary): an error of `try_next()` — i.e. one that arrives before any message —
+  gets the response headers merged into its metadata (`status.metadata_mut().merge(parts)`,
+  `HeaderMap::extend`: the headers win); an error while draining for the trailers does not.  On
+  success the trailers are merged into the headers (`parts.merge(trailers)`: the trailers win). -/
+
+def endAt (http : Nat) (outs : List Out) : End :=
+  if outs.getLast? == some Out.err then .layer
+  else
+    match Status.inferGrpcStatus .fixed (trailersOf outs) http with
+    | .done => .ok (trailersOf outs)
+    | .noStatus => .ok (trailersOf outs)
+    | .err st => .status st
+    | .panic => .panic
+
+def messagesAt (http : Nat) (outs : List Out) : List Bytes :=
+  if http = 200 then messages (dataOf outs) else []
+
+def streamingAt (head : WebClient.RespHead) (outs : List Out) : Streamed :=
+  { msgs := messagesAt head.status outs, fin := endAt head.status outs }
+
+def unaryAt (head : WebClient.RespHead) (outs : List Out) : Unary :=
+  match endAt head.status outs with
+  | .ok t =>
+    match messagesAt head.status outs with
+    | m :: _ => .ok m (HMap.extend head.headers (t.getD []))
+    | [] => .missing
+  | .status st =>
+    match messagesAt head.status outs with
+    | [] => .status { st with metadata := HMap.extend st.metadata head.headers }
+    | _ :: _ => .status st
+  | .layer => .layer
+  | .panic => .panic
+
 def missingMessage : Bytes := Ascii.ofString "Missing response message."
 
 end WebCaller
